@@ -84,6 +84,15 @@ theorem symmetric_of_symmetric (W : Sim) (θ : Rat) (N i j : Nat) (hi : i < N) (
   have : (i ≠ j) = (j ≠ i) := propext ⟨Ne.symm, Ne.symm⟩
   simp only [this]
 
+/-- **the undirected link count is exact**: for a symmetric (weighted) similarity the adjacency
+has an even number of ones, so `n_links = nnz // 2` counts every unordered linked pair once -/
+theorem undirected_nlinks_exact (W : Sim) (θ : Rat) (N : Nat)
+    (hsym : ∀ i j, i < N → j < N → W i j = W j i) :
+    2 * countLinks false (thresholdAdjacency W θ N) = nnz (thresholdAdjacency W θ N) := by
+  obtain ⟨m, hm⟩ := nnz_even_of_symmetric W θ N hsym
+  simp only [countLinks, Bool.false_eq_true, if_false, hm]
+  omega
+
 /-- symmetry of `S₀` and of the distance weight carries over to the weighted absolute similarity -/
 theorem weighted_symm (S0 damp : Sim) (nl : Bool) (i j : Nat)
     (hS : S0 i j = S0 j i) (hd : damp i j = damp j i) :
@@ -184,10 +193,55 @@ theorem density_gap_le_ties (S damp : Sim) (N k : Nat) (ρ ε θ : Rat)
   have : (len : Rat) ≤ (L : Rat) + T + k := by exact_mod_cast this
   grind
 
+/-- the reported density is the number of ordered linked pairs over `N (N − 1)` -/
+theorem density_spec (A : List Bool) (N : Nat) (d : Rat) (h : linkDensity A N = some d) :
+    2 ≤ N ∧ d * ((N : Rat) * ((N : Rat) - 1)) = (nnz A : Rat) := by
+  unfold linkDensity at h
+  by_cases hN : N ≤ 1
+  · simp [hN] at h
+  · simp only [hN, if_false, Option.some.injEq] at h
+    have h2 : 2 ≤ N := by omega
+    have : (2 : Rat) ≤ (N : Rat) := by exact_mod_cast h2
+    refine ⟨h2, ?_⟩
+    have hn0 : (N : Rat) ≠ 0 := by grind
+    have hn1 : (N : Rat) - 1 ≠ 0 := by grind
+    subst h
+    grind
+
+/-- **the reported density never exceeds the request** (exact floor, or any raw index not below
+`(1 − ρ)·len − 1`), whatever `non_local` is: the object-level form of `density_le_request`. -/
+theorem reported_density_le_request (s s' : Net) (ρ d : Rat) (k : Nat)
+    (hS : ∀ i j, i < s.N → j < s.N → 0 ≤ s.S i j)
+    (hd : ∀ i j, i < s.N → j < s.N → s.damp i j ≤ 1)
+    (hρ : 0 ≤ ρ)
+    (hk : (1 - ρ) * ((offDiag s.S s.N).length : Rat) - 1 ≤ (k : Rat))
+    (h : s.setLinkDensity k = some s') (hden : s'.density = some d) : d ≤ ρ := by
+  simp only [Net.setLinkDensity, Option.map_eq_some_iff] at h
+  obtain ⟨θ, hθ, rfl⟩ := h
+  simp only [Net.setThreshold] at hden
+  obtain ⟨h2, hmul⟩ := density_spec _ _ _ hden
+  have hle := density_le_request s.S s.damp s.nonLocal s.N k ρ 0 θ hS hd hρ (Rat.le_refl)
+    (by grind) hθ
+  have hlen := length_offDiag s.S s.N
+  generalize (offDiag s.S s.N).length = len at *
+  generalize nnz (thresholdAdjacency (weighted s.nonLocal s.S s.damp) θ s.N) = L at *
+  have hlenR : (len : Rat) + (s.N : Rat) = (s.N : Rat) * (s.N : Rat) := by exact_mod_cast hlen
+  have hN : (2 : Rat) ≤ (s.N : Rat) := by exact_mod_cast h2
+  have hM : (len : Rat) = (s.N : Rat) * ((s.N : Rat) - 1) := by grind
+  have hpos : (0 : Rat) < (len : Rat) := by
+    rw [hM]; exact Rat.mul_pos (by grind) (by grind)
+  apply Rat.le_of_mul_le_mul_right (c := (len : Rat)) _ hpos
+  rw [hM] at hle ⊢
+  grind
+
 /-- the two bounds are not vacuous: 3 nodes, zero diagonal, request ρ = 1/2 → index 3, threshold
 1/2, 2 of 6 ordered pairs linked, 2 tied -/
 example : thresholdFromIndex (fun i j => if i = j then 0 else ((i + j : Nat) : Rat) / 4) 3 3
     = some (1/2) := by decide +kernel
+example : let S : Sim := fun i j => if i = j then 0 else ((i + j : Nat) : Rat) / 4
+    (offDiag S 3).length = 6 ∧ nnz (thresholdAdjacency (weighted false S S) (1/2) 3) = 2 ∧
+      (offDiag S 3).countP (fun s => decide (s = 1/2)) = 2 ∧
+      (1 - (1/2 : Rat)) * 6 - 1 - 0 ≤ 3 ∧ (3 : Rat) ≤ (1 - 1/2) * 6 + 0 := by decide +kernel
 
 /-! ## 5. reported threshold, density, link count and adjacency stay consistent -/
 
@@ -283,21 +337,6 @@ example : ((mkThreshold 2 false (fun i j => if i = j then 1 else 1/2) (fun _ _ =
     (1/4)).run [Op.nl true, Op.dens 0, Op.thr (1/8), Op.nl true]).map
       (fun s => (s.nonLocal, s.θ, s.A, s.nLinks, s.density))
     = some (true, 1/8, [false, true, true, false], 1, some 1) := by decide +kernel
-
-/-- the reported density is the number of ordered linked pairs over `N (N − 1)` -/
-theorem density_spec (A : List Bool) (N : Nat) (d : Rat) (h : linkDensity A N = some d) :
-    2 ≤ N ∧ d * ((N : Rat) * ((N : Rat) - 1)) = (nnz A : Rat) := by
-  unfold linkDensity at h
-  by_cases hN : N ≤ 1
-  · simp [hN] at h
-  · simp only [hN, if_false, Option.some.injEq] at h
-    have h2 : 2 ≤ N := by omega
-    have : (2 : Rat) ≤ (N : Rat) := by exact_mod_cast h2
-    refine ⟨h2, ?_⟩
-    have hn0 : (N : Rat) ≠ 0 := by grind
-    have hn1 : (N : Rat) - 1 ≠ 0 := by grind
-    subst h
-    grind
 
 /-! ## 6. the expressions regenerated from the source -/
 
